@@ -545,6 +545,15 @@ theorem C04_extend_partial_union (env : Env) (ht : SubTrans env) (cands : List S
       isCompatible env (.union bcs bf) c' = true :=
   extend_union_ok env ht cands f bcs bf c' hok h
 
+/-- F292 is repaired (fixes/C04-F292.patch): the candidate that `get_candidate` resolves in a Union base
+is subject to the frozen-base guard, as a base given directly is — `Float().extend(Union([Float(0..1)
+frozen at 0.5, Str()]))` raises (before the repair it succeeded with a result accepting 0.75). -/
+theorem C04_F292_repaired :
+    extend env0 (.float none none F0)
+      (.union [.float (some ⟨0, 0⟩) (some ⟨1, 0⟩) ⟨false, .float ⟨1, 1⟩, true⟩, .str none F0] F0) = .error .type ∧
+    extend env0 (.float none none F0) (.float (some ⟨0, 0⟩) (some ⟨1, 0⟩) ⟨false, .float ⟨1, 1⟩, true⟩) = .error .type :=
+  ⟨rfl, rfl⟩
+
 /-- The simplicity of the BASE union is needed (F125): with `Int(min_value=4)` next to `Float()` the
 base routes the int 1 to its `Int` candidate; without that candidate the pair is inside the class. -/
 theorem C04_extend_exclusion_F125 :
